@@ -65,6 +65,7 @@ FFSM2_CONSTEXPR(14)
 bool
 BitArrayT<NC_>::get(const TIndex index) const noexcept {
 	FFSM2_ASSERT(index < CAPACITY);
+	FFSM2_VERIF_INDEX(index, CAPACITY);
 
 	const Index unit = static_cast<Index>(index) / 8;
 	const Index bit  = static_cast<Index>(index) % 8;
@@ -81,6 +82,7 @@ FFSM2_CONSTEXPR(14)
 void
 BitArrayT<NC_>::set(const TIndex index) noexcept {
 	FFSM2_ASSERT(index < CAPACITY);
+	FFSM2_VERIF_INDEX(index, CAPACITY);
 
 	const Index unit = static_cast<Index>(index) / 8;
 	const Index bit  = static_cast<Index>(index) % 8;
@@ -97,6 +99,7 @@ FFSM2_CONSTEXPR(14)
 void
 BitArrayT<NC_>::clear(const TIndex index) noexcept {
 	FFSM2_ASSERT(index < CAPACITY);
+	FFSM2_VERIF_INDEX(index, CAPACITY);
 
 	const Index unit = static_cast<Index>(index) / 8;
 	const Index bit  = static_cast<Index>(index) % 8;
